@@ -395,6 +395,15 @@ impl<'a, T: Evaluate> PiecewiseEvaluator<'a, T> {
     // instances for references.
     #[inline]
     pub fn evaluate(&mut self, x: f64) -> f64 {
+        // NaN carries no ordering information. Answer it the way direct
+        // evaluation does (no segment end compares greater than NaN, so the
+        // last segment is used) and leave the cursor and the remembered
+        // argument alone: storing NaN would make every later comparison
+        // false and send the next query to the first segment.
+        if x.is_nan() {
+            return self.last.evaluate(x);
+        }
+
         // If the new evaluation is for value higher than previous
         // one, we want to start searching for the segment from the
         // last segment we have recorded: we already know there is no
